@@ -1,12 +1,19 @@
 #!/bin/bash
-# Applies every filed seeded change to /repo in turn and runs the quick check of its property.
-# Output: one line per change in seeded/recheck.log
+# Applies every filed seeded change to /repo in turn and runs the quick check that is recorded
+# as catching it (meta.json caught_by; the change's own property if nothing catches it).
+# Output: one line per change in seeded/recheck.log. Optional arguments: ids to re-check.
 cd /verif
-out=seeded/recheck.log; : > $out
+out=seeded/recheck.log
+[ $# -eq 0 ] && : > $out
 for d in seeded/C*/; do
   id=$(basename $d)
-  prop=$(python3 -c "import json;print(json.load(open('$d/meta.json'))['property'])")
+  if [ $# -gt 0 ]; then case " $* " in *" $id "*) ;; *) continue;; esac; fi
+  prop=$(python3 -c "
+import json
+m=json.load(open('$d/meta.json')); cb=m.get('caught_by','')
+print(m['property'] if (cb.startswith('NOT') or m['property'] in cb or not cb) else cb.split(',')[0].strip())")
   r=$(VERIF_NO_MINIMISE=1 tools/try_mutant.sh $d $prop 2>&1 | grep -E "^==|VIOLATION|class|APPLY|REPO|HARNESS" | tr '\n' ' ' | cut -c1-400)
+  [ $# -gt 0 ] && sed -i "/^$id /d" $out
   echo "$id $prop :: $r" >> $out
 done
-echo DONE >> $out
+[ $# -eq 0 ] && echo DONE >> $out
